@@ -76,7 +76,8 @@ ExistingIds(kinds) == {m.id : m \in {x \in SeqToSet(Flatten(doc)) : x.k \in kind
 \* candidate nodes (id filled in by AddNode)
 Choices ==
   CASE Family = "depth" ->
-         {Node(0, "leaf"), Node(0, "g"), Node(0, "cont")}
+         \* (a shape with its text as content is exactly as deep as the shape)
+         {Node(0, "leaf"), Node(0, "g"), Node(0, "cont"), [Node(0, "leaf") EXCEPT !.content = TRUE]}
          \cup {[Node(0, "reuse") EXCEPT !.href = h] : h \in ExistingIds({"leaf", "g"})}
     [] Family = "flat" ->
          {Node(0, "leaf"), [Node(0, "leaf") EXCEPT !.content = TRUE],
